@@ -480,6 +480,19 @@ def make_async_handler(rec, hdef, bus):
                             raise
                         rec.open[act].pop('aw', None)
                         rec.log('AwE', act=act, e=rec.eid(c), canc=False, same=r is c)
+                elif k == 'ax':     # await an event this handler did not dispatch itself: the op[1]-th event created in the scenario
+                    if 0 < op[1] <= len(rec.events):
+                        c = rec.events[op[1] - 1]
+                        rec.open[act]['aw'] = rec.eid(c)
+                        rec.log('AwB', act=act, e=rec.eid(c), also=[])
+                        try:
+                            r = await c
+                        except asyncio.CancelledError:
+                            rec.open.get(act, {}).pop('aw', None)
+                            rec.log('AwE', act=act, e=rec.eid(c), canc=True, same=True)
+                            raise
+                        rec.open[act].pop('aw', None)
+                        rec.log('AwE', act=act, e=rec.eid(c), canc=False, same=r is c)
                 elif k == 'ga':     # await several children through helper tasks: asyncio.gather / TaskGroup style (['ga', how, k1, k2, ...])
                     cs = [kids[j] for j in op[2:] if j < len(kids) and kids[j] is not None]
                     if cs:
